@@ -81,9 +81,17 @@ def group(case):
     solver, backend, dt, t0, td = case["solver"], case["backend"], case["dt"], case["t0"], case["td"]
     only = case.get("only")  # replay of a single (range, tracker set)
     hook = bool(case.get("hook"))
-    eq = L["Lin"](-0.5, poly=(0.3, -0.2, 0.1) if td else None, hook=hook)
+    skind = case.get("state", "scalar")  # scalar | complex (complex rate: real state is converted) | collection
+    rate = (-0.5 + 0.3j) if skind == "complex" else -0.5
+    eq = L["Lin"](rate, poly=(0.3, -0.2, 0.1) if td else None, hook=hook)
     grid = L["UnitGrid"]([2])
-    s0 = L["ScalarField"](grid, [1.0, 2.0])
+
+    def make_state():
+        if skind == "collection":
+            return L["FieldCollection"]([L["ScalarField"](grid, [1.0, 2.0]), L["ScalarField"](grid, [-0.5, 0.25])])
+        return L["ScalarField"](grid, [1.0, 2.0])  # real even for the complex rate: the controller must convert a copy
+
+    s0 = make_state()
     s0_bytes = s0._data_full.tobytes()
     from pde.solvers.base import SolverBase
 
@@ -95,7 +103,8 @@ def group(case):
         c["only"] = [mult, tset]
         viol.append(
             {
-                "sig": f"{solver}|{backend}|{'time-dependent' if td else 'autonomous'}{'+post-step hook' if hook else ''}|{clause}",
+                "sig": f"{solver}|{backend}|{'time-dependent' if td else 'autonomous'}{'+post-step hook' if hook else ''}"
+                f"{'' if skind == 'scalar' else '+' + skind + ' state'}|{clause}",
                 "msg": f"{clause}: dt={dt} t0={t0} range={mult}*dt trackers={tset} {detail}",
                 "detail": detail,
                 "case": c,
@@ -130,7 +139,7 @@ def group(case):
             # caller's state untouched, result not aliased
             if s0._data_full.tobytes() != s0_bytes:
                 bad("initial state modified", mult, tset)
-                s0 = L["ScalarField"](grid, [1.0, 2.0])
+                s0 = make_state()
             if res is s0 or np.shares_memory(res._data_full, s0._data_full):
                 bad("result aliases the initial state", mult, tset)
             # accounting valid for every range
@@ -146,7 +155,7 @@ def group(case):
             # reference trajectory: `steps` applications of the solver's own one-step map
             if traj is None or len(traj) <= steps:
                 sol = SolverBase.from_name(solver, pde=eq, backend=backend)
-                st = s0.copy()
+                st = s0.copy(dtype=complex) if skind == "complex" else s0.copy()
                 stepper = sol.make_stepper(state=st, dt=dt)
                 traj = [st.data.copy()]
                 t = t0
@@ -194,7 +203,7 @@ def group(case):
             # non-trivial: the tracker-free reference runs and runs in which a tracker interrupted the
             # simulation at least once after the start
             if not tset or any(len(tr.ts) >= 2 for tr in trackers):
-                keys.append(f"{solver}|{backend}|{dt}|{t0}|{td}|{hook}|{mult}|{tset}")
+                keys.append(f"{solver}|{backend}|{dt}|{t0}|{td}|{hook}|{skind}|{mult}|{tset}")
             if len(viol) > 20:
                 break
         if len(viol) > 20:
@@ -215,6 +224,11 @@ def main(run):
                         cases.append(
                             {"solver": solver, "backend": backend, "dt": dt, "t0": t0, "td": td, "tier": tier}
                         )
+                        # other kinds of state: a real state under a complex rate (converted copy), a collection
+                        if not td and (tier == "thorough" or (dt in (0.1, 0.3) and t0 in (0.0, 1.5))):
+                            for sk in ("complex", "collection"):
+                                cases.append({"solver": solver, "backend": backend, "dt": dt, "t0": t0, "td": False,
+                                              "state": sk, "tier": tier})
                         # an equation with a stateful post-step hook (scalar hook data fed back into the state)
                         if not td and (tier == "thorough" or (dt in (0.1, 1 / 3, 0.5) and t0 in (0.0, -2.0))):
                             cases.append(
